@@ -84,7 +84,18 @@ LookAlikeInit ==
                    Entry(<< >>, "s1", "k2", LinkD("s1", <<GoodSig("k2"), LookAlike("k2"), LookAlike("k1")>>, {}, Variant("A")))>>
                  \o (IF two THEN S2 ELSE << >>), {})
 
-MCInit == (LatticeInit \/ MixInit \/ LookAlikeInit) /\ VInitRest
+\* two sub-layouts for one step, by different functionaries, one of them counter-signed by the other: each is
+\* verified with ITS delegating key alone, in whatever order they are visited
+SubBy(k, sigs) == LayoutD(sigs, 1000, <<"k3">>, <<StepD("in1", <<"k3">>, 1, << >>, <<Simple("ALLOW", <<"*">>)>>)>>, << >>)
+TwoSubsInit ==
+  \E thr \in {1, 2}, counter \in {"none", "k1", "k2", "both"} :
+     scn = Build(Layout(thr, "allow", FALSE), Own("o1"),
+                 <<Entry(<< >>, "s1", "k1", SubBy("k1", IF counter \in {"k1", "both"} THEN <<GoodSig("k1"), GoodSig("k2")>> ELSE <<GoodSig("k1")>>)),
+                   Entry(<< >>, "s1", "k2", SubBy("k2", IF counter \in {"k2", "both"} THEN <<GoodSig("k2"), GoodSig("k1")>> ELSE <<GoodSig("k2")>>)),
+                   Entry(<<"s1.k1">>, "in1", "k3", LinkD("in1", <<GoodSig("k3")>>, {}, Variant("A"))),
+                   Entry(<<"s1.k2">>, "in1", "k3", LinkD("in1", <<GoodSig("k3")>>, {}, Variant("A")))>>, {})
+
+MCInit == (LatticeInit \/ MixInit \/ LookAlikeInit \/ TwoSubsInit) /\ VInitRest
 
 
 MCSpec == MCInit /\ [][VNext]_vars
